@@ -290,28 +290,37 @@ theorem bullets_inj {vs ws : List String} {x y : List Char}
       have h2 := ih (fun s m => hv s (List.mem_cons_of_mem _ m)) (fun s m => hw s (List.mem_cons_of_mem _ m)) h1.2
       exact ⟨by rw [String.toList_inj.mp h1.1, h2.1], h2.2⟩
 
-/-- on a duplicate-free list that does not start a run with `prev`, every value is written -/
-theorem renderVals_nodup (prev : String) (l : List String) (h : (prev :: l).Nodup) :
-    ((renderVals prev l).1.toList = bullets l) ∧ (renderVals prev l).2 = l.length := by
+/-- after `prev`, on a duplicate-free continuation, every value is written -/
+theorem renderRest_nodup (prev : String) (l : List String) (h : (prev :: l).Nodup) :
+    ((renderRest prev l).1.toList = bullets l) ∧ (renderRest prev l).2 = l.length := by
   induction l generalizing prev with
-  | nil => simp [renderVals, bullets]
+  | nil => simp [renderRest, bullets]
   | cons s t ih =>
     have hn := List.nodup_cons.mp h
     have hne : s ≠ prev := fun e => hn.1 (e ▸ List.mem_cons_self)
     have := ih s hn.2
-    simp only [renderVals, hne, ne_eq, not_false_eq_true, if_true]
+    simp only [renderRest, hne, ne_eq, not_false_eq_true, if_true]
     rw [bullets_cons]
     simp [String.toList_append, this.1, this.2]
 
-/-- a non-empty duplicate-free group without the empty string renders as `v₁•…vₖ•,` (sorted) -/
-theorem renderGroup_chars {g : List String} (hne : g ≠ []) (hnd : g.Nodup) (he : "" ∉ g) :
+/-- on a duplicate-free list every value is written (the empty string included) -/
+theorem renderVals_nodup (l : List String) (h : l.Nodup) :
+    ((renderVals l).1.toList = bullets l) ∧ (renderVals l).2 = l.length := by
+  cases l with
+  | nil => simp [renderVals, bullets]
+  | cons s t =>
+    have := renderRest_nodup s t h
+    simp only [renderVals]
+    rw [bullets_cons]
+    simp [String.toList_append, this.1, this.2]
+
+/-- a non-empty duplicate-free group renders as `v₁•…vₖ•,` (sorted) -/
+theorem renderGroup_chars {g : List String} (hne : g ≠ []) (hnd : g.Nodup) :
     (renderGroup g).1.toList = bullets (sortStr g) ++ [','] := by
   unfold renderGroup
   have : g.isEmpty = false := by cases g with | nil => exact absurd rfl hne | cons _ _ => rfl
   simp only [this, Bool.false_eq_true, if_false]
-  have hn : ("" :: sortStr g).Nodup :=
-    List.nodup_cons.mpr ⟨by simpa using he, sortStr_nodup hnd⟩
-  rw [String.toList_append, (renderVals_nodup "" _ hn).1]
+  rw [String.toList_append, (renderVals_nodup _ (sortStr_nodup hnd)).1]
   rfl
 
 end Refinery.Model.TraceKey
